@@ -405,7 +405,7 @@ fn gen_route(rng: &mut Rng, id: &str) -> Value {
     } else { Value::Null };
     let dt: Value = if rng.chance(1, 6) { let a = rng.below(TIMES.len()); let b = rng.below(TIMES.len()); json!([[if rng.chance(3, 4) { json!(TIMES[a.min(b)]) } else { Value::Null }, if rng.chance(3, 4) { json!(TIMES[a.max(b)]) } else { Value::Null }]]) } else { Value::Null };
     let time: Value = if rng.chance(1, 8) { json!([[*rng.pick(&["09:00:00", "10:00:00"]), *rng.pick(&["12:00:00", "23:59:59"])]]) } else { Value::Null };
-    let wd: Value = if rng.chance(1, 8) { json!([*rng.pick(DAYS), *rng.pick(DAYS)]) } else { Value::Null };
+    let wd: Value = if rng.chance(1, 8) { match rng.below(4) { 0 => json!(["Mon"]), 1 => json!(["Mon", "Tue"]), _ => json!([*rng.pick(DAYS), *rng.pick(DAYS)]) } } else { Value::Null };
     json!({"id": id, "rank": rng.below(4), "scheme": scheme, "host": host, "methods": methods, "excl": excl, "path": path, "headers": headers, "ips": ips, "dt": dt, "time": time, "wd": wd})
 }
 
@@ -471,7 +471,8 @@ fn trigger_focus(rng: &mut Rng, routes: &mut Vec<Value>, probes: &mut Vec<Value>
                 if rng.chance(1, 2) || !any { r["wd"] = rng.pick(&wds).clone(); }
             }
             "time" => { r["time"] = if rng.chance(1, 3) { json!([["09:00:00", "11:00:00"], ["22:00:00", "23:59:59"]]) } else { json!([[*rng.pick(&["09:00:00", "10:00:00", "00:00:00"]), *rng.pick(&["10:00:00", "12:00:00", "23:59:59"])]]) }; }
-            "wd" => { r["wd"] = json!([*rng.pick(DAYS), *rng.pick(DAYS)]); }
+            // lists of different lengths, one a prefix of another: the date/time layer groups rules by their weekday LIST
+            "wd" => { r["wd"] = match rng.below(5) { 0 => json!(["Mon"]), 1 => json!(["Mon", "Tue"]), 2 => json!(["Mon", "Tue", "Sat"]), _ => json!([*rng.pick(DAYS), *rng.pick(DAYS)]) }; }
             "scheme" => { r["scheme"] = fresh["scheme"].clone(); }
             _ => { r["host"] = fresh["host"].clone(); }
         }
